@@ -6,8 +6,16 @@ package main
 
 import (
 	"bufio"
+	"crypto/ecdsa"
+	"crypto/elliptic"
+	"crypto/rand"
+	"crypto/tls"
+	"crypto/x509"
+	"crypto/x509/pkix"
+	"encoding/pem"
 	"fmt"
 	"io"
+	"math/big"
 	"net"
 	"os"
 	"runtime"
@@ -404,6 +412,7 @@ func main() {
 		if n := backendConns(); n > base+4 {
 			rep.Violate("impl-violation", "sockets released", fmt.Sprintf("25 further IMAP logins (each session ended) left %d more connections to the authentication backend open (%d → %d): one per login, never closed", n-base, base, n), []string{"scenario imap/backend-connections-after-logins"})
 		}
+		transportEnds(w, dir, rep)
 		shutdownLMTP(w, dir, rep, ask, o.Thorough)
 		shutdownSASL(w, dir, rep, o.Thorough)
 	}
@@ -421,6 +430,89 @@ func main() {
 	rep.Sample("scenarios: " + fmt.Sprint(len(scs)) + " prefixes × {close, silent}; deadlines scaled by 1000")
 	rep.Finish()
 }
+
+// transportEnds: the ways a real TCP connection goes away — orderly close, and a reset (SO_LINGER 0: the peer was killed, a
+// middlebox cut the connection) — on plain TCP and under TLS, with the session inside IDLE and at the command wait. Under TLS a
+// reset reaches the server as ECONNRESET inside the record layer's error, not as EOF.
+func transportEnds(w *world.World, dir string, rep *hx.Report) {
+	key, _ := ecdsa.GenerateKey(elliptic.P256(), rand.Reader)
+	tpl := &x509.Certificate{SerialNumber: big.NewInt(1), Subject: pkix.Name{CommonName: "localhost"}, NotBefore: time.Now().Add(-time.Hour), NotAfter: time.Now().Add(24 * time.Hour), DNSNames: []string{"localhost"}}
+	der, _ := x509.CreateCertificate(rand.Reader, tpl, tpl, &key.PublicKey, key)
+	kb, _ := x509.MarshalECPrivateKey(key)
+	cert, err := tls.X509KeyPair(pem.EncodeToMemory(&pem.Block{Type: "CERTIFICATE", Bytes: der}), pem.EncodeToMemory(&pem.Block{Type: "EC PRIVATE KEY", Bytes: kb}))
+	if err != nil {
+		rep.Violate("broken-correspondence", "tls", err.Error(), nil)
+		return
+	}
+	ln, err := net.Listen("tcp", "127.0.0.1:0")
+	if err != nil {
+		rep.Note("no loopback TCP in this sandbox: transport-level endings not exercised (%v)", err)
+		return
+	}
+	defer ln.Close()
+	for _, useTLS := range []bool{false, true} {
+		for _, state := range []string{"idle", "command-wait"} {
+			for _, how := range []string{"close", "reset"} {
+				id := fmt.Sprintf("tcp/tls=%v/%s/%s", useTLS, state, how)
+				rep.Case(id, true)
+				replay := []string{"scenario " + id}
+				done := make(chan struct{})
+				go func() {
+					defer close(done)
+					sc, err := ln.Accept()
+					if err != nil {
+						return
+					}
+					if useTLS {
+						// what HandleSSLConnection / a TLS-terminating front end hands to the command loop: a *tls.Conn
+						w.Srv.HandleConnection(tls.Server(sc, &tls.Config{Certificates: []tls.Certificate{cert}}))
+					} else {
+						w.Srv.HandleConnection(tcpTLS{sc})
+					}
+				}()
+				raw, err := net.Dial("tcp", ln.Addr().String())
+				if err != nil {
+					rep.Violate("broken-correspondence", "tcp", err.Error(), replay)
+					return
+				}
+				var cc net.Conn = raw
+				if useTLS {
+					cc = tls.Client(raw, &tls.Config{InsecureSkipVerify: true})
+				}
+				cl := &world.Client{C: cc, R: bufio.NewReaderSize(cc, 1<<16), W: w, Wait: 4 * time.Second}
+				readLine(cl)
+				ok := cl.Cmd("LOGIN life@example.com pw").OK() && cl.Cmd("SELECT INBOX").OK()
+				if state == "idle" {
+					r := cl.Send("a5", "a5 IDLE\r\n")
+					ok = ok && strings.HasPrefix(r.Tagged, "+")
+				}
+				if !ok {
+					rep.Violate("broken-correspondence", "prefix", id+": the command prefix did not reach its state", replay)
+					raw.Close()
+					<-done
+					continue
+				}
+				time.Sleep(700 * time.Millisecond) // inside a poll
+				if how == "reset" {
+					raw.(*net.TCPConn).SetLinger(0)
+				}
+				raw.Close()
+				select {
+				case <-done:
+					rep.Hit("transport:" + how + ":ended")
+				case <-time.After(6 * time.Second):
+					n, g := ravenGoroutines()
+					rep.Violate("impl-violation", "disconnect ends the session (Props.C20.eof_closes)", fmt.Sprintf("%s: the client's TCP connection was %s and the handler is still running 6 s later (%d goroutines in service code: %s)", id, map[string]string{"close": "closed", "reset": "reset"}[how], n, g), replay)
+				}
+			}
+		}
+	}
+}
+
+// tcpTLS marks a plain TCP connection as TLS-protected (the IsTLS double) so that LOGIN is allowed on it
+type tcpTLS struct{ net.Conn }
+
+func (tcpTLS) IsTLS() bool { return true }
 
 func dialLMTP(sock string) (net.Conn, *bufio.Reader, bool) {
 	c, err := net.DialTimeout("unix", sock, time.Second)
